@@ -1142,6 +1142,109 @@ Section Progress.
 End Progress.
 
 (* ------------------------------------------------------------------------------------------ *)
+(** * A blocking step() after cancel() does not block                                            *)
+
+Section Blocking.
+  Variable C : Type.
+  Variable ch : chart C.
+  Variable v : lc_variant.
+
+  (* step(forever) reaches dequeueExternal and finds the external queue empty *)
+  Definition would_block (m : stepper C) (q : queues) : bool :=
+    let f := m_flags m in
+    negb (fl_fin f) && negb (fl_tlf f) && negb (fl_is_pristine f) && negb (fl_spont f)
+    && match q_int q with [] => true | _ => false end
+    && fl_stable f
+    && match q_ext q with [] => true | _ => false end.
+
+  (* a cancellation is pending: the flag is set and the unblock event is still queued, unless the
+     interpreter is already finalising *)
+  Definition pending (m : stepper C) (q : queues) : Prop :=
+    m_cancelled m = true /\ (In 0 (q_ext q) \/ fl_tlf (m_flags m) = true \/ fl_fin (m_flags m) = true).
+
+  Lemma pending_not_blocked : forall m q, pending m q -> would_block m q = false.
+  Proof.
+    intros m q (Hc & [Hq|[Ht|Hf]]); unfold would_block.
+    - destruct (q_ext q); [contradiction Hq|]. rewrite !andb_false_r. reflexivity.
+    - rewrite Ht. simpl. rewrite andb_false_r. reflexivity.
+    - rewrite Hf. reflexivity.
+  Qed.
+
+  Lemma pending_step : forall m q, pending m q ->
+    pending (st_m C (ms_step ch m q)) (st_q C (ms_step ch m q)).
+  Proof.
+    intros m q (Hc & Hp). unfold ms_step.
+    destruct (fl_fin (m_flags m)) eqn:Hfin.
+    { unfold st_m, st_q; simpl. split; auto. }
+    destruct (fl_tlf (m_flags m)) eqn:Htlf.
+    { unfold st_m, st_q; simpl. split; auto. }
+    assert (Hq : In 0 (q_ext q)) by (destruct Hp as [Hp|[Hp|Hp]]; [exact Hp|discriminate Hp|discriminate Hp]).
+    assert (Hsel : forall q0 e, In 0 (q_ext q0) -> pending (st_m C (select ch m q0 e)) (st_q C (select ch m q0 e))).
+    { intros q0 e H0. pose proof (select_spec C ch m q0 e) as H. cbv zeta in H.
+      destruct H as (_ & _ & _ & _ & H5 & H6). split; [rewrite H5; exact Hc|]. left. rewrite H6. exact H0. }
+    destruct (fl_is_pristine (m_flags m)).
+    { pose proof (apply_micro_spec C m q (set_init (set_spont (m_flags m) true) true) (ch_initial ch)) as H.
+      cbv zeta in H. destruct H as (_ & _ & _ & _ & H5 & _ & H7). split; [rewrite H5; exact Hc|]. left. rewrite H7. exact Hq. }
+    destruct (fl_spont (m_flags m)); [apply Hsel; exact Hq|].
+    destruct (q_int q) as [|e iq]; [|apply Hsel; exact Hq].
+    destruct (fl_stable (m_flags m)); simpl.
+    2:{ unfold st_m, st_q; simpl. split; auto. }
+    destruct (q_ext q) as [|e eq] eqn:Hqe; [contradiction Hq|].
+    destruct (e =? 0) eqn:He.
+    - unfold after_dequeue. rewrite Hc. unfold st_m, st_q; simpl. split; auto.
+    - apply Hsel. simpl. destruct Hq as [Hq|Hq]; [subst e; discriminate He|exact Hq].
+  Qed.
+
+  Definition lpending (s : istate C) : Prop :=
+    exists m q, i_stepper s = Some m /\ i_queues s = Some q /\ pending m q.
+
+  Lemma lpending_exec : forall ops s s', ~ In OpReset ops -> lpending s -> lc_exec v ch s ops = Some s' -> lpending s'.
+  Proof.
+    induction ops as [|o ops IH]; intros s s' Hn (m & q & Hm & Hq & Hp) Hx; simpl in Hx.
+    - inversion Hx; subst. exists m, q. auto.
+    - assert (Hn' : ~ In OpReset ops) by (intro H; apply Hn; right; exact H).
+      destruct o.
+      + unfold lc_step in Hx. rewrite Hm, Hq in Hx. destruct (i_init s); simpl in Hx.
+        * pose proof (pending_step m q Hp) as Hp'.
+          destruct (ms_step ch m q) as [[[m' q'] r] l]. unfold st_m, st_q in Hp'; simpl in Hp'.
+          eapply IH; [exact Hn'| |exact Hx]. exists m', q'. auto.
+        * eapply IH; [exact Hn'| |exact Hx]. exists m, q. auto.
+      + unfold lc_receive in Hx. rewrite Hq in Hx. eapply IH; [exact Hn'| |exact Hx].
+        eexists; eexists. split; [exact Hm|]. split; [reflexivity|]. destruct Hp as (Hc & Hp). split; [exact Hc|]. simpl.
+        destruct Hp as [Hp|Hp]; [left; apply in_or_app; left; exact Hp|right; exact Hp].
+      + unfold lc_cancel, lc_receive in Hx. rewrite Hm in Hx. simpl in Hx. rewrite Hq in Hx.
+        eapply IH; [exact Hn'| |exact Hx]. eexists; eexists. split; [reflexivity|]. split; [reflexivity|].
+        split; [reflexivity|]. left. simpl. apply in_or_app. right; left; reflexivity.
+      + exfalso. apply Hn. left; reflexivity.
+      + discriminate Hx.
+  Qed.
+
+  (* U, every chart, both variants: from a successful cancel() on -- whatever is stepped, received
+     or cancelled afterwards, until a reset() -- a blocking step() would not block *)
+  Theorem cancel_never_blocks_lemma : forall s s1 ops s2,
+    lc_cancel s = Ok s1 -> ~ In OpReset ops -> lc_exec v ch s1 ops = Some s2 ->
+    exists m q, i_stepper s2 = Some m /\ i_queues s2 = Some q /\ would_block m q = false.
+  Proof.
+    intros s s1 ops s2 Hc Hn Hx.
+    assert (H1 : lpending s1).
+    { unfold lc_cancel, lc_receive in Hc. destruct (i_stepper s) as [m|]; [|discriminate Hc]. simpl in Hc.
+      destruct (i_queues s) as [q|]; [|discriminate Hc]. inversion Hc; subst s1; clear Hc.
+      eexists; eexists. split; [reflexivity|]. split; [reflexivity|]. split; [reflexivity|].
+      left. simpl. apply in_or_app. right; left; reflexivity. }
+    destruct (lpending_exec ops s1 s2 Hn H1 Hx) as (m & q & Hm & Hq & Hp).
+    exists m, q. split; [exact Hm|]. split; [exact Hq|]. apply pending_not_blocked; exact Hp.
+  Qed.
+End Blocking.
+
+(* the hypotheses of cancel_leads_to_finished / cancel_never_blocks are satisfiable, and on the demo
+   chart the bound is concrete: cancelled in its first idle configuration it is FINISHED after 2 steps *)
+Example cancel_hypotheses_satisfiable :
+  exists s s1 s2, lc_exec lc_pinned demo_chart (fresh lc_pinned) [OpStep; OpStep; OpStep; OpStep] = Some s
+    /\ i_init s = true /\ lc_cancel s = Ok s1
+    /\ lc_exec lc_pinned demo_chart s1 (repeat OpStep 2) = Some s2 /\ i_state s2 = R_FINISHED.
+Proof. do 3 eexists. split; [reflexivity|]. split; [reflexivity|]. split; [reflexivity|]. split; reflexivity. Qed.
+
+(* ------------------------------------------------------------------------------------------ *)
 (** * The combined oracle                                                                       *)
 
 Theorem lifecycle_safe_lemma : forall (C : Type) (ch : chart C) v, lv_lazy_queues v = false ->
